@@ -725,7 +725,7 @@ func c12NewInstMode(conn *wsclient.Conn, max int, mode c12Mode) *c12Inst {
 		note: make(chan struct{}, 1), tsByPeer: map[string]int{}, tqLastPos: map[string]int{}}
 	in.ctx, in.cancel = context.WithCancel(context.Background())
 	in.vs = app.VerifNewSnapshotSender(app.VerifSenderOpts{
-		Logger:       c12Logger,
+		Logger: c12Logger,
 		Now: func() time.Time {
 			if cp := atomic.LoadInt32(&in.clockPerturb); cp != 0 {
 				in.perturbClock(cp)
@@ -1103,25 +1103,25 @@ type c12Result struct {
 	Closers       int // stub transfers that registered a connection closer
 	ClosersCalled int // ... whose closer the scheduler invoked
 	AutoRet       int // stub transfers that unwound on their own after cancellation
-	Max       int
-	Hist      []c12Ev
-	FailAt    int // length of the first refuting prefix (0 = none)
-	Viols     []c12Viol
-	Obs       *c12Obs
-	ModelStr  string
-	Executed  int
-	Truncated bool
-	Inconcl   string
-	Starts    int
-	TS        int
-	TQ        int
-	Offers    int
-	MaxLive   int
-	TQStale   int
-	TSBad     int
-	TQBad     int
-	Exits     int
-	Trace     []c12Step
+	Max           int
+	Hist          []c12Ev
+	FailAt        int // length of the first refuting prefix (0 = none)
+	Viols         []c12Viol
+	Obs           *c12Obs
+	ModelStr      string
+	Executed      int
+	Truncated     bool
+	Inconcl       string
+	Starts        int
+	TS            int
+	TQ            int
+	Offers        int
+	MaxLive       int
+	TQStale       int
+	TSBad         int
+	TQBad         int
+	Exits         int
+	Trace         []c12Step
 }
 
 func (m *c12Model) String() string {
